@@ -18,6 +18,10 @@ type xzBlockM struct {
 	FlagsExtra   byte // OR-ed into the block flags (reserved bits, filter count)
 	HdrPad       []byte
 	HdrSizeDelta int // added to the header size byte
+	// raw 64-bit overrides (values a signed field cannot hold): when non-zero the field is written
+	// as this unsigned integer; PropSizeV replaces the one-byte "size of properties" by a multi-byte
+	// integer while still one property byte follows
+	CompV, UncompV, PropSizeV uint64
 	Data         []byte
 	Pad          []byte
 	Check        []byte
@@ -83,16 +87,26 @@ func xzModelOf(data []byte) (*xzModel, error) {
 
 func (b *xzBlockM) header() []byte {
 	h := []byte{0, b.FlagsExtra}
-	if b.Comp >= 0 {
+	if b.CompV != 0 {
+		h[1] |= 0x40
+		h = append(h, putUv(b.CompV)...)
+	} else if b.Comp >= 0 {
 		h[1] |= 0x40
 		h = append(h, putUv(uint64(b.Comp))...)
 	}
-	if b.Uncomp >= 0 {
+	if b.UncompV != 0 {
+		h[1] |= 0x80
+		h = append(h, putUv(b.UncompV)...)
+	} else if b.Uncomp >= 0 {
 		h[1] |= 0x80
 		h = append(h, putUv(uint64(b.Uncomp))...)
 	}
 	h = append(h, putUv(b.FilterID)...)
-	h = append(h, b.PropSize)
+	if b.PropSizeV != 0 {
+		h = append(h, putUv(b.PropSizeV)...)
+	} else {
+		h = append(h, b.PropSize)
+	}
 	if b.PropSize >= 1 {
 		h = append(h, b.DictCode)
 		for i := 1; i < int(b.PropSize); i++ {
@@ -313,6 +327,22 @@ func structEdits(nb int) []StructEdit {
 			blk(m).Uncomp *= 2
 			return true
 		})
+		// integers beyond 63 bits and multi-byte "size of properties" values (a conversion to a signed or
+		// narrower type must not turn them into something acceptable)
+		for _, v := range []uint64{1 << 63, 1<<64 - 1, 1<<63 + 1} {
+			v := v
+			add(fmt.Sprintf("block%d.compsize=%#x", bi, v), true, func(m *xzModel) bool { blk(m).CompV = v; blk(m).HdrPad = nil; return true })
+			add(fmt.Sprintf("block%d.uncompsize=%#x", bi, v), true, func(m *xzModel) bool { blk(m).UncompV = v; blk(m).HdrPad = nil; return true })
+		}
+		for _, v := range []uint64{0x81, 0x101, 1<<32 + 1, 1<<63 - 1, 1 << 63, 1<<64 - 1, 1<<64 - 2} {
+			v := v
+			add(fmt.Sprintf("block%d.filter-propsize=%#x", bi, v), true, func(m *xzModel) bool { blk(m).PropSizeV = v; blk(m).HdrPad = nil; return true })
+		}
+		// filter ids that agree with the LZMA2 id 0x21 in their low bits only
+		for _, id := range []uint64{0x121, 0x2121, 0x10021, 1<<32 | 0x21, 1<<56 | 0x21, 1<<63 | 0x21} {
+			id := id
+			add(fmt.Sprintf("block%d.filterid=%#x(unsupported, low byte 0x21)", bi, id), true, func(m *xzModel) bool { blk(m).FilterID = id; blk(m).HdrPad = nil; return true })
+		}
 		for _, id := range []uint64{0x03, 0x04, 0x20, 0x22, 0x4000000000000000} {
 			id := id
 			add(fmt.Sprintf("block%d.filterid=%#x(unsupported)", bi, id), true, func(m *xzModel) bool { blk(m).FilterID = id; blk(m).HdrPad = nil; return true })
